@@ -15,7 +15,10 @@
 //     Ledger.tla. Every valid block of every replayed behaviour of Ledger.tla is the base of mutants (as is, and
 //     re-signed + re-sealed) that run through ValidateHeader, ValidateOrphan, ValidateBlock, ValidateTransaction /
 //     ValidateV2Transaction on a fresh MidState, ValidateTransactionElements, and — when ValidateBlock accepts —
-//     ApplyBlock and RevertBlock.
+//     ApplyBlock and RevertBlock. The same module holds the COMMIT-THEN-REVEAL family (reveal.go): a valid block pays to the
+//     addresses of unlock conditions and spend policies that TLC enumerates (keys of odd lengths, unknown algorithms, absurd
+//     thresholds and time locks, every kind of policy), the next block spends them revealing the pre-image in every spending
+//     form; the model transcribes validateSignatures and SpendPolicy.Verify and names the stage that decides each case.
 //
 // The prediction of both specifications is only: the call returns (a value or an error). A violation observed on the
 // real code is: a panic; a call that has not returned after 120 s (5 s makes it a suspect, the same execution is then
@@ -59,11 +62,28 @@ func main() {
 		replay(c)
 		return
 	}
+	if os.Getenv("C10_ONLY") == "reveal" { // development aid: the commit-then-reveal family alone
+		c.Rule("development run: reveal family only")
+		if pf := os.Getenv("C10_CPUPROFILE"); pf != "" {
+			if f, err := os.Create(pf); err == nil {
+				pprof.StartCPUProfile(f)
+				defer pprof.StopCPUProfile()
+			}
+		}
+		exts, _ := loadExtremes(c)
+		st := newLedgerStats()
+		runReveal(c, st, exts)
+		pprof.StopCPUProfile()
+		c.Count(st.mutants, int64(len(st.distinct)))
+		c.Finish()
+	}
 	c.Rule("Decoder cases: TLC (Malformed.tla) enumerates (wire type, small valid shape, structural item, corruption) and emits the bytes; a case is distinct by " +
 		"(type, shape, case number) and non-trivial iff its bytes differ from the valid encoding. JSON / text cases: every catalogue entry at sampled nodes of valid " +
 		"documents of every reachable type of core (each counts: a replacement is never the node's own text). Ledger cases: (catalogue entry of Extremes.tla) x (valid " +
 		"transaction of an accepted block of a replayed Ledger.tla behaviour) x (as is | re-signed and re-sealed); distinct by (entry, sealing, transaction template, era); " +
-		"non-trivial iff the entry changed the block. evaluations = cases executed on the real code.")
+		"non-trivial iff the entry changed the block. Reveal cases: (pre-image) x (signatures / satisfaction) x (spending form) of the commit-then-reveal family of Extremes.tla, " +
+		"distinct by their position in the model's tables, all non-trivial (the quick tier takes a seed-chosen handful from every group (form, key list or policy kind, predicted stage)). " +
+		"evaluations = cases executed on the real code.")
 	c.Assume("the schema lines of spec/wire and the generic transaction of spec/ledger/Ledger.tla describe the formats and the ledger (bound to the code by C11 and C01..C08)")
 	c.Assume("a worker process runs one case at a time, so runtime.MemStats.TotalAlloc deltas are the case's total allocations: the cheap filter. The verdict is the PEAK heap growth during the call, measured three times (smallest counts) in a fresh process that holds next to nothing, with a sampler forcing collections back to back; a reading overestimates memory held by what is allocated during one collection (1-3 MB for the fastest churners)")
 	c.Assume("the v1 block supplement is the node's own data: ValidateBlock checks it against the accumulator before any transaction sees it, so entries that change the CONTENT of supplement elements go through ValidateBlock only (entries about which elements it holds also go through ValidateTransaction)")
